@@ -1215,6 +1215,8 @@ fn builtin_pcap_open(args: Vec<Rc<Object>>) -> Result<Rc<Object>, String> {
         "r"
     };
     let res = match obj.as_ref() {
+        // the file could not be opened: hand the error object on
+        Object::Err(_) => return Ok(obj),
         Object::File(f) => match mode {
             "r" => Ok(Pcap::from_file(f.clone())),
             "a" => Err(String::from("append mode not supported for pcap files")),
@@ -1330,8 +1332,8 @@ fn builtin_pcap_read_all(args: Vec<Rc<Object>>) -> Result<Rc<Object>, String> {
 /// Apart from opening the file, read the pcap header and validate
 /// the magic number and the endianness. Return error if the validation fails.
 fn builtin_pcap_stream(args: Vec<Rc<Object>>) -> Result<Rc<Object>, String> {
-    if args.len() > 1 {
-        return Err(format!("takes one or no arguments. got={}", args.len()));
+    if args.len() != 1 {
+        return Err(format!("takes one argument. got={}", args.len()));
     }
     let result = match args[0].as_ref() {
         Object::File(f) => match f.as_ref() {
